@@ -48,7 +48,7 @@ def items(tier):
     q = tier == "quick"
     out = []
     temps = ["poisson-linsolve", "linsolve-dense", "linsolve-classchange", "linsolve-diagchange", "linsolve-patternchange", "overhang", "densityfilter", "filterconv",
-             "sysofeq", "statcond", "assemble-const", "aggregation-active", "aggregation-scaled", "eigensolve-sparse", "eigensolve-dense",
+             "sysofeq", "sysofeq-nonsymcoupling", "statcond", "assemble-const", "aggregation-active", "aggregation-scaled", "eigensolve-sparse", "eigensolve-dense",
              "eigensolve-dense-classchange", "assemble-realthencomplex"]
     if not q:
         temps += ["linsolve-dense-lda", "linsolve-classchange-lda", "linsolve-dense3"]
@@ -266,7 +266,10 @@ def make(V, template, ncyc=3):
             sx.state = V.reals("x%d" % k, 6, positive=True)
         return Net(net, [sx], [m2.sig_out[0], m.sig_out[0]], [sx, m.sig_out[0], m2.sig_out[0]], setter)
 
-    if template in ("sysofeq", "statcond"):
+    if template in ("sysofeq", "statcond", "sysofeq-nonsymcoupling"):
+        nonsym_coupling = template == "sysofeq-nonsymcoupling"
+        if nonsym_coupling:
+            template = "sysofeq"
         n = 3
         sA = pym.Signal("A")
         if template == "sysofeq":
@@ -282,11 +285,13 @@ def make(V, template, ncyc=3):
         def setter(k):
             A = V.reals("A%d" % k, (n, n))
             A = np.array(A, dtype=object if V.symbolic else float)
+            fr = [0, 2] if template == "sysofeq" else [1, 2]
             for i in range(n):
                 for j in range(i):
+                    if nonsym_coupling and not (i in fr and j in fr):
+                        continue        # symmetric free-free block, coupling blocks A_fp and A_pf independent of each other
                     A[i, j] = A[j, i]
             A = wrap(A) if V.symbolic else A
-            fr = [0, 2] if template == "sysofeq" else [1, 2]
             assume_nonsingular(V, np.asarray(A)[np.ix_(fr, fr)], "A_ff")
             if V.symbolic:
                 V.assume(np.asarray(A)[fr[0], fr[1]] != 0, "A_ff keeps its class (symmetric, not diagonal) in every cycle; "
